@@ -234,8 +234,17 @@ class PIMixin(IOMixin):
             else:
                 self.__timeseries_export.set(variable, values, unit=unit)
 
-        self.__timeseries_import.set(variable, values, unit=unit)
-        self.io.set_timeseries(variable, self.io.datetimes, values)
+        # The values start at the forecast date, while the import series and the
+        # data store also cover the time stamps before it.
+        n_import = len(self.io.datetimes)
+        if len(values) < n_import:
+            import_values = np.full(n_import, np.nan)
+            import_values[n_import - len(values) :] = values
+        else:
+            import_values = values
+
+        self.__timeseries_import.set(variable, import_values, unit=unit)
+        self.io.set_timeseries(variable, self.io.datetimes, import_values)
 
     def get_timeseries(self, variable):
         _, values = self.io.get_timeseries(variable)
